@@ -268,6 +268,10 @@ pub fn gen_case(t: &mut Tape) -> Case {
     if recv_fragment {
         src.push_str("macro_rules! __mk_tr { ($rt:ty) => {\n");
     }
+    // or every `self` of the trait is handed in by the caller (`fn m(&$slf, ..)`, the `$self_:ident` idiom): the `&` and the
+    // `self` of a receiver then come from different hygiene contexts
+    let self_fragment = hygiene.is_none() && !attr_from_call && !recv_fragment && t.chance(1, 8);
+    let trait_starts_at = src.len();
     if attr_from_call {
         src.push_str(&format!("macro_rules! __mk_tr {{ ($($a:tt)*) => {{\n$($a)*\n{at}pub trait Tr{tg}{sup_src}{tw} {{\n"));
     } else {
@@ -301,6 +305,26 @@ pub fn gen_case(t: &mut Tape) -> Case {
     src.push_str("}\n");
     if recv_fragment {
         src.push_str("} }\n__mk_tr!(&mut Self);\n");
+    }
+    if self_fragment {
+        let decl = src.split_off(trait_starts_at);
+        // every `self` token of the declaration (receivers and default bodies alike), not `Self`
+        let mut out = String::new();
+        let bytes = decl.as_bytes();
+        let mut i = 0;
+        while i < bytes.len() {
+            let is_word = |b: u8| b.is_ascii_alphanumeric() || b == b'_';
+            if decl[i..].starts_with("self") && (i == 0 || !is_word(bytes[i - 1])) && (i + 4 >= bytes.len() || !is_word(bytes[i + 4])) {
+                out.push_str("$slf");
+                i += 4;
+            } else {
+                out.push(bytes[i] as char);
+                i += 1;
+            }
+        }
+        src.push_str("macro_rules! __mk_tr { ($slf:ident) => {\n");
+        src.push_str(&out);
+        src.push_str("} }\n__mk_tr!(self);\n");
     }
     if let Some((mi, i, _)) = hygiene {
         src.push_str(&format!("}} }}\n__mk_tr!({});\n", methods[mi].params[i].name));
@@ -528,6 +552,9 @@ pub fn gen_case(t: &mut Tape) -> Case {
     }
     if recv_fragment {
         classes.push("receiver_type_from_a_macro_rules_ty_fragment");
+    }
+    if self_fragment {
+        classes.push("self_tokens_from_a_macro_rules_ident_fragment");
     }
     if dflt_overridden {
         classes.push("defaulted_method_overridden_by_the_provider");
